@@ -26,8 +26,9 @@ THEOREMS = [P_ + n for n in (
     'equal_eq_number_no_missing', 'coded_half_is_zero', 'equal_weighting_ok_partial',
     'corr_kernel_ok_partial', 'mahal_kernel_ok_partial', 'labels_first_appearance',
     'unb_single_obs_eq_balanced', 'single_obs_correlation', 'single_obs_poisson',
-    'entry_eq_rectangle_average', 'unb_cv_eq_balanced', 'unb_poisson_cv_partial',
-    'calc_one_eq_entry')]
+    'entry_eq_rectangle_average', 'unb_cv_eq_balanced', 'unb_poisson_cv_eq_balanced',
+    'unb_poisson_cv_partial',
+    'calc_one_eq_entry', 'leaf_combine_and_prior')]
 RULE = ('one PRNG; a case = dataset (3-12 observations, 2-5 conditions, 2-6 channels, small '
         'dyadic values, int/float dtype, C/F order; condition and fold labels are opaque values '
         'of 8 kinds: small / negative / large ints, floats with fractional parts (float64, '
@@ -46,7 +47,8 @@ BRANCHES = ['method:euclidean', 'method:correlation', 'method:mahalanobis', 'met
             'one:cross', 'one:self', 'nan-entry', 'balanced-compared']
 BRANCHES += ['cond:' + k for k in ('int', 'negint', 'bigint', 'float', 'float32', 'str', 'npstr', 'bool')]
 BRANCHES += ['fold:' + k for k in ('int', 'negint', 'bigint', 'float', 'float32', 'str', 'npstr', 'bool')]
-BRANCHES += ['fold:collide-int']
+BRANCHES += ['fold:collide-int', 'descriptor:none', 'input:list', 'noise:list', 'noise:shared-list',
+             'noise:list-complete', 'noise:shared-list-complete']
 ASSUMPTIONS = [
     'float64 evaluation of either side is within 1e-9 relative (+1e-10 x scale absolute) of the '
     'exact value on the generated small dyadic inputs',
@@ -200,7 +202,7 @@ def _gen_case(rng, force=None):
         vals = [[(i * 3 + c * c + (i * c) % 5) % 7 + 1 for c in range(P)] for i in range(n_obs)]
     noise = None
     noise_scale = 1
-    if kern == 'mahalanobis' and rng.random() < 0.65:
+    if kern == 'mahalanobis' and (force.get('noise') or rng.random() < 0.65):
         B = [[rng.randint(-1, 1) for _ in range(P)] for _ in range(P)]
         noise = [[sum(B[i][k] * B[j][k] for k in range(P)) + (2 if i == j else 0)
                   for j in range(P)] for i in range(P)]
@@ -212,6 +214,26 @@ def _gen_case(rng, force=None):
         'pw': rng.choice([0.1, 0.25, 1.0]), 'design': design, 'mask': mask, 'one': None,
         'cond_kind': lab_kind, 'fold_kind': fold_kind if folds is not None else None,
     }
+    if force.get('nodesc') or (force.get('nodesc') is None and rng.random() < 0.06):
+        # descriptor=None: every observation is its own condition ('index')
+        case['nodesc'] = True
+        case['labels'] = labels = list(range(n_obs))
+        case['cond_kind'] = 'int'
+        case['design'] = 'single' if folds is None else case['design']
+    n_extra = force.get('extra', 0 if rng.random() < 0.88 else rng.randint(1, 2))
+    if n_extra:
+        case['extra'] = []
+        case['noise_mode'] = force.get('noise_mode') or rng.choice(['shared', 'list'])
+        for _ in range(n_extra):
+            ev = [[None if v is None else rng.randint(lo, 8) for v in row] for row in vals]
+            if kern == 'correlation' and not _corr_ok(ev, P):
+                ev = [list(row) for row in vals]
+            en = noise
+            if noise is not None and case['noise_mode'] == 'list':
+                B = [[rng.randint(-1, 1) for _ in range(P)] for _ in range(P)]
+                en = [[sum(B[i][k] * B[j][k] for k in range(P)) + (2 if i == j else 0)
+                       for j in range(P)] for i in range(P)]
+            case['extra'].append({'vals': ev, 'noise': en})
     uniq = orc.first_appearance(labels)
     if rng.random() < 0.6:
         crossval = orc.crossval_of(case)
@@ -251,6 +273,17 @@ def generate(rng, tier):
         yield _gen_case(rng, {'method': method, 'mask': 'none', 'weighting': 'number',
                               'design': 'foldbal1' if method in ('crossnobis', 'poisson_cv') else 'single'})
         k += 1
+    for method in ('euclidean', 'correlation', 'poisson', 'crossnobis'):
+        yield _gen_case(rng, {'method': method, 'nodesc': True, 'mask': 'none'})
+        k += 1
+    for method in ('euclidean', 'mahalanobis', 'crossnobis', 'poisson_cv'):
+        yield _gen_case(rng, {'method': method, 'extra': 2, 'nodesc': False})
+        k += 1
+    for method in ('mahalanobis', 'crossnobis'):
+        for mode in ('list', 'shared'):     # complete data, so outside the known-finding region
+            yield _gen_case(rng, {'method': method, 'extra': 2, 'nodesc': False, 'mask': 'none',
+                                  'noise': True, 'noise_mode': mode, 'weighting': 'number'})
+            k += 1
     for kind in LABEL_KINDS:
         yield _gen_case(rng, {'cond_kind': kind, 'method': rng.choice(METHODS)})
         for method in ('crossnobis', 'poisson_cv', 'euclidean'):
@@ -340,6 +373,8 @@ def model_requests(case):
     reqs = [_model_req(case, False), _model_req(case, True)]
     if case.get('one'):
         reqs.append(_one_req(case))
+    for sc in orc.sub_cases(case)[1:]:
+        reqs.append(_model_req(sc, False))
     return reqs
 
 
@@ -365,8 +400,13 @@ def model_result(case, answers):
         'coded_buf': [_dec(case, x) for x in coded['out']],
         'one': None,
     }
+    k = 2
     if case.get('one'):
         res['one'] = [_dec(case, x) for x in answers[2]]
+        k = 3
+    res['multi'] = None
+    if case.get('extra'):
+        res['multi'] = [res['rdm']] + [[_dec(case, x) for x in a['rdm']] for a in answers[k:]]
     return res
 
 
@@ -390,6 +430,10 @@ def compare(case, impl, model):
             return 'impl vs model ' + d
     if case.get('one'):
         d = first_diff(impl['one'], model['one'], 1e-9, atol, 'calc_one')
+        if d:
+            return 'impl vs model ' + d
+    if case.get('extra'):
+        d = first_diff(impl['multi'], model['multi'], 1e-9, atol, 'list input, row')
         if d:
             return 'impl vs model ' + d
     # the executed model against its own specification / balanced formulas (runtime echo of
@@ -427,6 +471,15 @@ def features(case, impl):
     br.append('design:' + {'foldbal1': 'foldbal', 'randfolds': 'unbalanced'}.get(d, d))
     if case['noise'] is not None:
         br.append('noise:given')
+    if case.get('nodesc'):
+        br.append('descriptor:none')
+    if case.get('extra'):
+        br.append('input:list')
+        if case['noise'] is not None:
+            br.append('noise:list' if case.get('noise_mode') == 'list' else 'noise:shared-list')
+            if not has_missing:
+                br.append('noise:list-complete' if case.get('noise_mode') == 'list'
+                          else 'noise:shared-list-complete')
     br.append('cond:' + orc.kind_of(case, 'cond'))
     if case['folds'] is not None:
         br.append('fold:' + orc.kind_of(case, 'fold'))
